@@ -226,6 +226,50 @@ Muts == {[fam |-> "mut", where |-> w, d |-> Doc0, sel |-> sel, op |-> op] :
             w \in {"ptr", "inslice", "inmap"}, sel \in MutSels, op \in UNION {MutOpsOf(ss) : ss \in MutSels}}
 MutsOK == {c \in Muts : c.op \in MutOpsOf(c.sel)}
 
+(* ---- Export of shared and cyclic data (Bridge!ExportNode) ----------------------------- *)
+(* three containers n1 (the exported value), n2, n3; every member is the leaf 1 or a         *)
+(* reference to n1, n2 or n3: all shapes of depth <= 2 with shared rows, diamonds, a leaf    *)
+(* container under two parents, self references and longer cycles, over arrays and objects   *)
+Ref(i) == [t |-> "ref", i |-> i]
+DagSlot == {S!IntV(1), Ref(1), Ref(2), Ref(3)}
+KindPats == {<<"arr", "arr", "arr">>, <<"obj", "obj", "obj">>, <<"arr", "obj", "arr">>, <<"obj", "arr", "obj">>}
+DNode(kind, vals) == [kind |-> kind, keys |-> IF Len(vals) = 2 THEN <<K_a, K_b>> ELSE <<K_a>>, vals |-> vals]
+Dags == {[fam |-> "dag", nodes |-> <<DNode(kp[1], <<a, b>>), DNode(kp[2], <<c, d>>), DNode(kp[3], <<e>>)>>] :
+            kp \in KindPats, a \in DagSlot, b \in DagSlot, c \in DagSlot, d \in DagSlot, e \in {S!StrV(<<120>>), Ref(1), Ref(3)}}
+NodeName(i) == "n" \o ToString(i)
+MemberJs(v) == IF v.t = "ref" THEN <<NodeName(v.i)>> ELSE <<[lit |-> v]>>
+RECURSIVE FillJs(_, _, _)
+FillJs(nd, i, j) == IF j > Len(nd.vals) THEN <<>>
+                    ELSE (IF nd.kind = "arr" THEN <<NodeName(i) \o ".push(">> \o MemberJs(nd.vals[j]) \o <<");">>
+                          ELSE <<NodeName(i) \o "[">> \o <<[lit |-> S!StrV(nd.keys[j])]>> \o <<"] = ">> \o MemberJs(nd.vals[j]) \o <<";">>)
+                         \o FillJs(nd, i, j + 1)
+DagJs(nodes) == <<"(function(){ var ">>
+                \o <<NodeName(1) \o (IF nodes[1].kind = "arr" THEN " = [], " ELSE " = {}, ")
+                     \o NodeName(2) \o (IF nodes[2].kind = "arr" THEN " = [], " ELSE " = {}, ")
+                     \o NodeName(3) \o (IF nodes[3].kind = "arr" THEN " = []; " ELSE " = {}; ")>>
+                \o FillJs(nodes[1], 1, 1) \o FillJs(nodes[2], 2, 1) \o FillJs(nodes[3], 3, 1) \o <<" return n1; })()">>
+
+(* ---- Otto.Call / Object.Call with callee sources over names that begin with or contain "new" ---- *)
+SrcCall(path) == [new |-> FALSE, sp |-> 0, path |-> path]
+SrcNew(sp, path) == [new |-> TRUE, sp |-> sp, path |-> path]
+CallSources == {SrcCall(<<"Point">>), SrcCall(<<"newPoint">>), SrcCall(<<"newest">>), SrcCall(<<"renew">>), SrcCall(<<"news", "count">>),
+                SrcCall(<<"ns", "newB">>), SrcCall(<<"ns", "renew">>), SrcCall(<<"ns", "C">>),
+                SrcNew(1, <<"Point">>), SrcNew(2, <<"Point">>), SrcNew(1, <<"newPoint">>), SrcNew(1, <<"newest">>), SrcNew(1, <<"ns", "C">>), SrcNew(3, <<"ns", "newB">>)}
+SrcArgs == {<<>>, <<S!GInt("int", I(3))>>, <<S!GStr(U_smile), S!GNil>>, <<S!GInt("uint64", ZAdd(63, 1024)), S!GFlt("float64", S!NZero)>>}
+CallSrcs == {[fam |-> "callsrc", route |-> "otto", csrc |-> src, th |-> th, args |-> a] : src \in CallSources, th \in {[k |-> "gonil"], [k |-> "objO"]}, a \in SrcArgs}
+            \cup {[fam |-> "callsrc", route |-> "object", csrc |-> SrcCall(<<"ns", m>>), th |-> [k |-> "gonil"], args |-> a] : m \in {"newB", "renew", "C", "new"}, a \in SrcArgs}
+
+(* ---- undefined / null (and a value, then null) written into bridged maps (Bridge!MapWriteRun) ---- *)
+MapWInit(k) == [k |-> k, keys |-> <<K_a>>,
+                vals |-> <<CASE k = "iface" -> S!GX([x |-> "num", n |-> I(1)]) [] k = "int8" -> S!GInt("int8", I(1))
+                             [] k = "string" -> S!GStr(<<118>>) [] k = "bool" -> S!GBool(TRUE) [] OTHER -> [k |-> "nonnil"]>>]
+MapWVal(k) == CASE k = "iface" -> S!StrV(<<115>>) [] k = "int8" -> S!IntV(5) [] k = "string" -> S!StrV(<<115>>) [] k = "bool" -> S!BoolV(TRUE)
+WOp(key, v) == [op |-> "jswrite", key |-> key, v |-> v, js |-> JsParts(v)]
+MapWs == {[fam |-> "mapw", k |-> k, key |-> key, steps |-> <<WOp(key, nv)>>] : k \in {"iface", "int8", "string", "bool"}, key \in {K_a, K_b}, nv \in {S!Null, S!Undef}}
+         \cup {[fam |-> "mapw", k |-> k, key |-> K_b, steps |-> <<WOp(K_b, MapWVal(k)), WOp(K_b, nv)>>] : k \in {"iface", "int8", "string", "bool"}, nv \in {S!Null, S!Undef}}
+         \cup {[fam |-> "mapw", k |-> k, key |-> K_b, steps |-> <<WOp(K_b, nv)>>] : k \in S!NilableKinds, nv \in {S!Null, S!Undef}}
+         \cup {[fam |-> "mapw", k |-> k, key |-> K_b, steps |-> <<WOp(K_b, nv), WOp(K_b, nv2)>>] : k \in S!NilableKinds \cup {"iface"}, nv \in {S!Null, S!Undef}, nv2 \in {S!Null, S!Undef}}
+
 (* ---- expectations ---------------------------------------------------------- *)
 IsScalar(g) == S!Base(g).k \notin {"slice", "map", "struct", "imap", "nstruct"}
 ConvR(r) == [thr |-> r.thr, v |-> r.v, log |-> r.log]
@@ -250,6 +294,9 @@ Expect(B(_), c) ==        \* B(op) selects the instance: see Emit
                       toStr |-> ConvR(B("ToStringVV")[v]), toBool |-> S!ToBooleanV(v)]
                 ELSE [base |-> base]
       [] c.fam = "callerr" -> [err |-> S!CallErr(c.what)]
+      [] c.fam = "dag" -> [exp |-> S!ExportNode(c.nodes, 1, {})]
+      [] c.fam = "mapw" -> (LET r == B("MapWriteRun")[c] IN [thr |-> r.thr, same |-> TRUE] @@ S!MapKeyObs(r.st, c.key))
+      [] c.fam = "callsrc" -> IF c.route = "object" THEN S!ObjCallObs(c.csrc.path[2], c.args) ELSE S!CallSrcObs(c.csrc, c.th, c.args)
       [] c.fam = "mut" ->
             LET r == B("DocMutate")[c]
             IN  [thr |-> r.thr, ret |-> r.ret, js |-> S!PlacedJS(c.where, r.d), go |-> r.d, export |-> r.d, same |-> TRUE]
@@ -274,6 +321,7 @@ TabS(op) == CASE op = "ToJS" -> [g \in {cs.g} |-> S!ToJS(g)]
               [] op = "ToFloatV" -> [v \in {cs.v} |-> S!ToFloatV(v)]
               [] op = "ToStringVV" -> [v \in {cs.v} |-> S!ToStringVV(v)]
               [] op = "DocMutate" -> [c \in {cs} |-> S!DocMutate(c.d, c.sel, c.op)]
+              [] op = "MapWriteRun" -> [c \in {cs} |-> S!MapWriteRun(MapWInit(c.k), c.steps, 1, "")]
 TabL(op) == CASE op = "ToJS" -> [g \in {cs.g} |-> L!ToJS(g)]
               [] op = "TypeOf" -> [j \in {L!ToJS(cs.g)} |-> L!TypeOfJ(j)]
               [] op = "ScriptString" -> [g \in {cs.g} |-> L!ScriptString(g)]
@@ -289,8 +337,9 @@ TabL(op) == CASE op = "ToJS" -> [g \in {cs.g} |-> L!ToJS(g)]
               [] op = "ToFloatV" -> [v \in {cs.v} |-> L!ToFloatV(v)]
               [] op = "ToStringVV" -> [v \in {cs.v} |-> L!ToStringVV(v)]
               [] op = "DocMutate" -> [c \in {cs} |-> L!DocMutate(c.d, c.sel, c.op)]
+              [] op = "MapWriteRun" -> [c \in {cs} |-> L!MapWriteRun(MapWInit(c.k), c.steps, 1, "")]
 
-Js(c) == IF c.fam = "j2g" THEN JsParts(c.v) ELSE <<>>
+Js(c) == IF c.fam = "j2g" THEN JsParts(c.v) ELSE IF c.fam = "dag" THEN DagJs(c.nodes) ELSE <<>>
 
 (* ---- blocks: evaluation is spread over the TLC workers --------------------- *)
 (* Src = "enum": the cases enumerated above.  Src = "file": seeded random Go *)
@@ -299,7 +348,7 @@ Js(c) == IF c.fam = "j2g" THEN JsParts(c.v) ELSE <<>>
 (* doubles, random strings) - the specification still computes every         *)
 (* expectation.                                                              *)
 K == 64
-AllCases == G2J \cup J2G \cup Calls \cup CallErrs \cup MutsOK
+AllCases == G2J \cup J2G \cup Calls \cup CallErrs \cup MutsOK \cup Dags \cup CallSrcs \cup MapWs
 FileCases == ndJsonDeserialize("c15cases.ndjson")
 CaseSeq == IF Src = "file" THEN FileCases ELSE SetToSeq(AllCases)
 None == [fam |-> "none"]
